@@ -81,7 +81,7 @@ ZeroText(t) == CASE t = "string" -> E [] t = "cc" -> E [] t = "um" -> E [] t = "
 ZeroVal(od) == IF od.kind = "scalar" THEN <<ZeroText(od.vtype)>> ELSE IF od.kind = "flag" THEN <<S_false>> ELSE <<>>
 
 \* the built-in help option that ParseArgs adds to every command when HelpFlag is set (parser.go:215-218)
-HelpOpt(d, c) == [cmd |-> c, group |-> 0, short |-> 104, long |-> <<104, 101, 108, 112>>, kind |-> "help", vtype |-> "", ktype |-> "string",
+HelpOpt(d, c) == [cmd |-> c, group |-> 0, short |-> 104, long |-> <<104, 101, 108, 112>>, kind |-> "help", vtype |-> "", ktype |-> "string", param |-> "",
                   base |-> 10, optional |-> FALSE, optvals |-> <<>>, required |-> FALSE, defaults |-> <<>>,
                   env |-> E, envDelim |-> E, choices |-> <<>>, hidden |-> FALSE, unquote |-> TRUE,
                   init |-> <<>>, failOn |-> <<>>, validator |-> FALSE,
@@ -164,10 +164,18 @@ ApplySet(s, o, hasVal, txt, src) ==
       t  == IF hasVal THEN txt ELSE E
       fail(e) == [s1 EXCEPT !.perr = e]
       \* a map entry key:value - the key is converted first, by the key type and with the option's base, then the value (convert.go:287-315)
-      kconv == IF od.kind = "map" THEN ConvScalar(od.ktype, od.base, MapKey(t), s.ftab) ELSE Okv(E)
+      \* (a callback whose parameter is a map gets a map of its own holding this one entry, converted the same way)
+      mapLike == od.kind = "map" \/ (od.kind = "func1" /\ od.param = "map")
+      kconv == IF mapLike THEN ConvScalar(od.ktype, od.base, MapKey(t), s.ftab) ELSE Okv(E)
       conv == IF od.kind \in {"flag", "counter", "ptrflag"} THEN ParseBoolT(t)
-              ELSE IF od.kind = "map" THEN (IF kconv.ok THEN ConvScalar(od.vtype, od.base, MapVal(t), s.ftab) ELSE kconv)
+              ELSE IF mapLike THEN (IF kconv.ok THEN ConvScalar(od.vtype, od.base, MapVal(t), s.ftab) ELSE kconv)
               ELSE ConvScalar(od.vtype, od.base, t, s.ftab)
+      \* what the callback receives, as the harness renders it: a scalar as its text; a slice, map or pointer parameter is a fresh
+      \* value per call that holds exactly this occurrence (option.go call: reflect.New of the parameter type, then convert)
+      callArg == CASE od.param = "slice" -> <<91>> \o conv.v \o <<93>>
+                   [] od.param = "map" -> <<123>> \o kconv.v \o <<COLON>> \o conv.v \o <<125>>
+                   [] od.param = "ptr" -> <<38>> \o conv.v
+                   [] OTHER -> conv.v
   IN
   IF od.choices # <<>> /\ ~hasVal /\ Defect("ChoiceOnFlagPanics") THEN fail(Err("panic", E))
   ELSE IF od.choices # <<>> /\ hasVal /\ ~InSeq(od.choices, txt) THEN fail([ErrAux("ErrInvalidChoice", OptString(s.d, od), "", txt, o) EXCEPT !.names = od.choices])    \* the message lists every allowed value
@@ -182,7 +190,7 @@ ApplySet(s, o, hasVal, txt, src) ==
        IF od.kind \in {"ptr", "ptrflag"} /\ s1.val[o] = <<>> THEN [fail(Err("foreign", E)) EXCEPT !.val[o] = <<ZeroText(IF od.kind = "ptrflag" THEN "bool" ELSE od.vtype)>>]
        ELSE fail(Err("foreign", E))
   ELSE IF od.kind = "func1" THEN
-       LET s2 == [s1 EXCEPT !.events = Append(@, [k |-> "call", o |-> o, has |-> TRUE, arg |-> conv.v])] IN
+       LET s2 == [s1 EXCEPT !.events = Append(@, [k |-> "call", o |-> o, has |-> TRUE, arg |-> callArg])] IN
        IF CallFails(od, conv.v) THEN [s2 EXCEPT !.perr = Err("foreign", E)] ELSE s2
   ELSE IF od.kind \in {"slice", "counter", "sliceptr"} THEN [s1 EXCEPT !.val[o] = Append(@, conv.v)]
   ELSE IF od.kind = "map" THEN [s1 EXCEPT !.val[o] = MapPut(@, kconv.v, conv.v)]
